@@ -729,6 +729,12 @@ class Interp:
             return ord(unescape_rust(c[1:-1]))
         if c.startswith('"') and c.endswith('"'):
             return mkstr(unescape_rust(c[1:-1]))
+        if c.startswith('b"') and c.endswith('"'):
+            raw = unescape_rust(c[2:-1])
+            bs = [ord(ch) for ch in raw]
+            if any(b > 0xff for b in bs):
+                raise Unsupported('byte string constant ' + c)
+            return Slice(bs, 0, len(bs))
         m = re.match(r'^([+-]?(?:\d+(?:\.\d+)?(?:[eE][+-]?\d+)?|inf|NaN))f64$', c)
         if m:
             return float(m.group(1).replace('NaN', 'nan'))
